@@ -1,70 +1,102 @@
 (* C07 — Output and local-namespace limits bound what they measure.  Property theorems only.
-   Statements are about Limits.run_prog v, the executable model the correspondence run compares with the engine
-   at v = Limits.repaired; is_repaired v: both repairs present (.work/fixes/C08-zero-limits.patch makes a
-   local_namespace_limit of 0 a limit), v_item (one render-for context or one per item) left free. *)
+   Statements are about Limits.run_prog v md, the executable model the correspondence run compares with the engine
+   at v = Limits.repaired in all three modes (md : Strict | Warn | Lax); is_repaired v: the repairs present
+   (.work/fixes/C08-zero-limits.patch: a local_namespace_limit of 0 is a limit; C07-namespace-rollback.patch: a refused
+   assignment does not stay in the namespace), v_item (one render-for context or one per item) left free. *)
 From LiquidVerif Require Import Prelude PyPrims Limits Limits_Proofs Limits_Sim_Proofs.
 Local Open Scope Z_scope.
 
 (* with an output stream limit L >= 0, whatever the template (output, captures, nested captures, ifchanged,
-   partials, macros, tablerow markup, 1-4 byte characters) and the other limits: a completed render returns at
-   most L UTF-8 bytes.  Holds for both variants of the code. *)
-Theorem C07_output_bound : forall v lim,
-  (forall L, l_out lim = Some L -> 0 <= L) ->
-  forall main sizes s L, l_out lim = Some L ->
-  run_prog v lim main sizes = LOk s -> utf8_bytes (buf_text (s_buf s)) <= L.
+   partials, macros, tablerow markup, 1-4 byte characters), the other limits and THE MODE: a completed render -
+   in WARN and LAX mode that is every render whose outermost context fits, errors being dropped per top-level
+   node - returns at most L UTF-8 bytes.  Holds for every variant of the code. *)
+Theorem C07_output_bound : forall v md lim main sizes s L,
+  l_out lim = Some L -> 0 <= L ->
+  run_prog v md lim main sizes = LOk s -> utf8_bytes (buf_text (s_buf s)) <= L.
 Proof. exact run_out_bound. Qed.
 Print Assumptions C07_output_bound.
 
-(* the invariant behind it, for EVERY buffer the render creates (main, capture, ifchanged): its size field is the
-   number of UTF-8 bytes written to it, and size <= its own limit (output_stream_limit - carried size) *)
+(* the invariant behind it, for EVERY buffer the render creates (main, capture, ifchanged), at every moment and in
+   every mode: the text holds at most `size` bytes and at most the buffer's own limit (output_stream_limit - carried
+   size); a refused write grows the size but not the text, because the limit is checked BEFORE the text is written *)
+Theorem C07_buffer_invariant_any_mode : forall v md lim main sizes,
+  match run_prog v md lim main sizes with
+  | LOk s | LErr _ s => bufinv lim (s_buf s)
+  | LFuel => True
+  end.
+Proof. exact run_out_inv. Qed.
+Print Assumptions C07_buffer_invariant_any_mode.
+
+(* STRICT: in a completed render every buffer moreover has size = bytes written <= its own limit *)
 Theorem C07_buffer_invariant : forall v lim,
   (forall L, l_out lim = Some L -> 0 <= L) ->
-  forall main sizes s, run_prog v lim main sizes = LOk s -> bufinv lim (s_buf s).
-Proof. exact run_out_inv. Qed.
+  forall main sizes s, run_prog v Strict lim main sizes = LOk s -> bufinv_strict lim (s_buf s).
+Proof. exact run_out_inv_strict. Qed.
 Print Assumptions C07_buffer_invariant.
 
-(* strict mode: if the render completes with the output limit removed (other limits unchanged) and returns more
+(* STRICT: if the render completes with the output limit removed (other limits unchanged) and returns more
    than L bytes, then under output_stream_limit L it raises OutputStreamLimitError *)
 Theorem C07_output_raises : forall v, is_repaired v -> forall lim L main sizes s,
   l_out lim = Some L -> 0 <= L ->
-  run_prog v (with_out lim None) main sizes = LOk s ->
+  run_prog v Strict (with_out lim None) main sizes = LOk s ->
   L < utf8_bytes (buf_text (s_buf s)) ->
-  run_prog v lim main sizes = LErr XOutput.
+  exists se, run_prog v Strict lim main sizes = LErr XOutput se.
 Proof. exact run_out_raises. Qed.
 Print Assumptions C07_output_raises.
 
-(* namespace: s_nslog holds, for every assignment (assign, capture) of a completed render, the pair
+(* namespace, in every mode: s_nslog holds, for every accepted assignment (assign, capture), the pair
    (true total = measured sizes of the locals of the current context and of ALL contexts it was copied from,
     size the engine computed = own locals + local_namespace_size_carry).  For every stream of measured sizes
    (sys.getsizeof is an oracle), the two agree - the carry IS the ancestors' measured size - and with a limit M
-   the true total never exceeded M. *)
-Theorem C07_namespace_bound : forall v lim, is_repaired v -> forall main sizes s,
-  run_prog v lim main sizes = LOk s ->
+   the true total never exceeded M ... *)
+Theorem C07_namespace_bound : forall v md lim, is_repaired v -> forall main sizes s,
+  run_prog v md lim main sizes = LOk s ->
   Forall (fun p => fst p = snd p /\ forall M, l_ns lim = Some M -> fst p <= M) (s_nslog s).
-Proof. exact run_ns_bound. Qed.
+Proof. exact run_ns_bound_ok. Qed.
 Print Assumptions C07_namespace_bound.
+
+(* ... and a refused assignment (LocalNamespaceLimitError, dropped in WARN/LAX mode) leaves the namespace exactly
+   as it was: namespaces only ever hold what an accepted assignment put there *)
+Theorem C07_refused_assignment_keeps_namespace : forall v lim f x val s e s',
+  v_rollback v = true -> m_assign v lim f x val s = LErr e s' -> s_locals s' = s_locals s /\ s_nslog s' = s_nslog s.
+Proof. exact m_assign_refused_keeps_locals. Qed.
+Print Assumptions C07_refused_assignment_keeps_namespace.
 
 (* the unrepaired truthiness test ignores a namespace limit of 0: {% assign v0 = 'a' %} with a measured size of 42
    completes under local_namespace_limit 0 *)
 Definition ns0 : limits := {| l_loop := None; l_out := None; l_ns := Some 0; l_depth := 30; l_nest := 30 |}.
 Theorem C07_unrepaired_zero_refuted :
-  (exists s, run_prog unrepaired ns0 [Assign 0 [97%N]] [42] = LOk s /\ s_nslog s = [(42, 42)]) /\
-  run_prog repaired ns0 [Assign 0 [97%N]] [42] = LErr XNamespace.
-Proof. split; [eexists; split; vm_compute; reflexivity|vm_compute; reflexivity]. Qed.
+  (exists s, run_prog unrepaired Strict ns0 [Assign 0 [97%N]] [42] = LOk s /\ s_nslog s = [(42, 42)]) /\
+  exists se, run_prog repaired Strict ns0 [Assign 0 [97%N]] [42] = LErr XNamespace se.
+Proof. split; [eexists; split; vm_compute; reflexivity|eexists; vm_compute; reflexivity]. Qed.
 Print Assumptions C07_unrepaired_zero_refuted.
 
+(* the unrepaired assign stores the value BEFORE it checks the limit: in LAX mode the error is dropped and the render
+   completes holding 100 measured bytes under local_namespace_limit 50, and prints them; repaired: it does not *)
+Definition ns_lim (M : Z) : limits := {| l_loop := None; l_out := None; l_ns := Some M; l_depth := 30; l_nest := 30 |}.
+Theorem C07_unrepaired_rollback_refuted :
+  (exists s, run_prog unrepaired Lax (ns_lim 50) [Assign 0 [97%N]; Echo 0] [100] = LOk s /\ s_nslog s = [(100, 100)]
+             /\ buf_text (s_buf s) = [97%N]) /\
+  (exists s, run_prog repaired Lax (ns_lim 50) [Assign 0 [97%N]; Echo 0] [100] = LOk s /\ s_nslog s = [] /\ s_locals s = []
+             /\ buf_text (s_buf s) = []).
+Proof. split; eexists; repeat split; vm_compute; reflexivity. Qed.
+Print Assumptions C07_unrepaired_rollback_refuted.
+
 (* non-vacuity: multi-byte text through a capture inside a partial; 11 bytes fit in 11 and not in 10;
-   a namespace carried into a rendered partial *)
+   in LAX mode under 10 the render completes with the 1 byte written before the partial's second node was refused *)
 Definition euro : N := 8364%N.
 Definition prog1 : list node := [Text [97%N]; Render [Capture 0 [Text [euro; euro]]; Echo 0; Text [128512%N]]].
 Definition out_lim (L : Z) : limits := {| l_loop := None; l_out := Some L; l_ns := None; l_depth := 30; l_nest := 30 |}.
 Example C07_nonvacuous_output :
-  (exists s, run_prog repaired (out_lim 11) prog1 [80] = LOk s /\ utf8_bytes (buf_text (s_buf s)) = 11) /\
-  run_prog repaired (out_lim 10) prog1 [80] = LErr XOutput.
-Proof. split; [eexists; split; vm_compute; reflexivity|vm_compute; reflexivity]. Qed.
+  (exists s, run_prog repaired Strict (out_lim 11) prog1 [80] = LOk s /\ utf8_bytes (buf_text (s_buf s)) = 11) /\
+  (exists se, run_prog repaired Strict (out_lim 10) prog1 [80] = LErr XOutput se) /\
+  (exists s, run_prog repaired Lax (out_lim 10) prog1 [80] = LOk s /\ buf_text (s_buf s) = [97%N; euro; euro]).
+Proof.
+  split; [eexists; split; vm_compute; reflexivity|]. split; [eexists; vm_compute; reflexivity|].
+  eexists; split; vm_compute; reflexivity.
+Qed.
 
-Definition ns_lim (M : Z) : limits := {| l_loop := None; l_out := None; l_ns := Some M; l_depth := 30; l_nest := 30 |}.
 Example C07_nonvacuous_namespace :
-  (exists s, run_prog repaired (ns_lim 100) [Assign 0 [97%N]; Render [Assign 1 [98%N]]] [50; 50] = LOk s /\ s_nslog s = [(100, 100); (50, 50)]) /\
-  run_prog repaired (ns_lim 99) [Assign 0 [97%N]; Render [Assign 1 [98%N]]] [50; 50] = LErr XNamespace.
-Proof. split; [eexists; split; vm_compute; reflexivity|vm_compute; reflexivity]. Qed.
+  (exists s, run_prog repaired Strict (ns_lim 100) [Assign 0 [97%N]; Render [Assign 1 [98%N]]] [50; 50] = LOk s /\ s_nslog s = [(100, 100); (50, 50)]) /\
+  exists se, run_prog repaired Strict (ns_lim 99) [Assign 0 [97%N]; Render [Assign 1 [98%N]]] [50; 50] = LErr XNamespace se.
+Proof. split; [eexists; split; vm_compute; reflexivity|eexists; vm_compute; reflexivity]. Qed.
